@@ -204,7 +204,7 @@ def repeated_elements(quick):
     return out
 
 
-INJECTIONS = ['."a onerror=alert(1) b"\n<image:style=|x>', '.c1\n<image:class=|x>', '.c1\n<image:a.png|x class=>', '."a:b"\n<image:a.png|x style=>', '.c1\n<<#class=>>',
+INJECTIONS = ['a <\\` b', 'a &\\` b', '>\\` c <\\`', 'x<_y z&_w', '."a onerror=alert(1) b"\n<image:style=|x>', '.c1\n<image:class=|x>', '.c1\n<image:a.png|x class=>', '."a:b"\n<image:a.png|x style=>', '.c1\n<<#class=>>',
               '[x](http://a"onmouseover="alert(1))', '<image:a"b|c"d>', '<image:a"onerror="x>', '![a"b](c"d)', '<j@x"y.com>',
               '<http://a.b"c|d>', '^[x](u"v)', '<a"b>', 'http://a.b/"c', '."color:red" onclick="x"\npara', '.cls"x\npara',
               '.#id"x\npara', '.[onclick="x"]\npara', '.-specials\n<b>\n', "{m}='<script>x</script>'\n{m}", "{m}='<b>'\n<div>{m}</div>",
